@@ -366,7 +366,7 @@ PAYLOADS = [
     "bytes-array", "str-array", "datetime", "array-for-seq",
 ]
 STRUCTS = ["trunc-all", "trunc-last", "extra", "swap", "nonlist-none", "nonlist-int", "tuple", "generator"]
-NAMES = ["rename", "inputs", "extra-unknown", "inputs-only"]
+NAMES = ["rename", "inputs", "extra-unknown", "inputs-only", "reverse"]
 STAGES = ["ctor", "names", "run"]
 
 
@@ -452,6 +452,8 @@ class Injector:
                     names = list(inj.input_names)
                 elif mode == "extra-unknown":
                     names = names + ["__no_such_value__"]
+                elif mode == "reverse":
+                    names = names[::-1]
                 self.rec["names"] = names
                 return names
 
@@ -473,10 +475,12 @@ class Injector:
                 mode = f.get("names")
                 if mode in ("inputs", "inputs-only"):
                     k_in = len(inj.input_names)
-                    filler = [outs[i % len(outs)] if outs else np.zeros((2,), np.float32) for i in range(k_in)]
+                    filler = [payload("other-values", outs[i % len(outs)]) if outs else np.zeros((2,), np.float32) for i in range(k_in)]
                     outs = filler + (outs if mode == "inputs" else [])
                 elif mode == "extra-unknown":
                     outs = outs + [outs[0] if outs else np.zeros((2,), np.float32)]
+                elif mode == "reverse":
+                    outs = outs[::-1]      # same association name -> value, other dictionary order
                 if "payload" in f and outs:
                     i = f.get("idx", 0) % len(outs)
                     outs[i] = payload(f["payload"], outs[i])
@@ -572,6 +576,7 @@ FLOATS = ("F23", "F6", "F3", "FX", "FV")
 
 
 def templates(op, spox):
+    import spox._future
     from spox import Tensor
 
     T = {}
@@ -653,6 +658,24 @@ def templates(op, spox):
                 value_int=None, value_ints=None, value_string=None, value_strings=None)
             return [_ConstNoInfer(attrs).outputs.output]
 
+    t("c_value_f6", (), ("F6",), lambda a, p: [op.constant(value=np.arange(6, dtype=np.float32) * 0.5)])
+    t("c_value_i3", (), ("I3",), lambda a, p: [op.constant(value=np.array([2, 0, 1], np.int64))])
+    t("c_value_u8", (), ("U8",), lambda a, p: [op.constant(value=np.array([[1, 2], [3, 4]], np.uint8))])
+    t("c_value_f64", (), ("D",), lambda a, p: [op.constant(value=np.array(2.5, np.float64))])
+    t("c_value_bool", (), ("B",), lambda a, p: [op.constant(value=np.array([True, False]))])
+    t("c_value_longlong", (), ("I3",), lambda a, p: [op.constant(value=np.array([1, 2, 3], np.longlong))])
+    t("c_value_float", (), ("FS",), lambda a, p: [op.constant(value_float=1.25)])
+    t("c_value_floats", (), ("F3",), lambda a, p: [op.constant(value_floats=[0.5, -1.5, 2.0])])
+    t("c_value_floats6", (), ("F6",), lambda a, p: [op.constant(value_floats=[0.5, -1.5, 2.0, 3.0, 4.0, 5.5])])
+    t("c_value_int", (), ("S0",), lambda a, p: [op.constant(value_int=1)])
+    t("c_value_ints", (), ("I3",), lambda a, p: [op.constant(value_ints=[3, 1, 2])])
+    t("c_value_ints_sh", (), ("SH2",), lambda a, p: [op.constant(value_ints=[3, 2])])
+    t("c_value_ints_empty", (), ("IV",), lambda a, p: [op.constant(value_ints=[])])
+    t("c_value_string", (), ("STR0",), lambda a, p: [op.constant(value_string="héllo")])
+    t("c_value_strings", (), ("STR2",), lambda a, p: [op.constant(value_strings=["a", "bç"])])
+    t("init_f6", (), ("F6",), lambda a, p: [spox._future.initializer(np.arange(6, dtype=np.float32) - 2)])
+    t("init_i3", (), ("I3",), lambda a, p: [spox._future.initializer(np.array([1, 1, 2], np.int64))])
+    t("init_str", (), ("STR2",), lambda a, p: [spox._future.initializer(np.array(["x", "yz"]))])
     t("abs_untyped", (("F6", "F3"),), ("UNT",), abs_untyped)
     t("const_untyped", (), ("UNT",), const_untyped)
 
@@ -662,6 +685,22 @@ def templates(op, spox):
     def inline2(a, p):
         return list(spox.inline(inline_model_2(op, spox))(a[0], a[1]).values())
 
+    def inline3(a, p):
+        return list(spox.inline(inline_model_3(op, spox))(a[0], a[1]).values())
+
+    def unsafe_cast_f6(a, p):
+        from spox._internal_op import unsafe_cast
+
+        return [unsafe_cast(a[0], Tensor(np.float32, (None,)))]
+
+    def unsafe_reshape_f6(a, p):
+        from spox._internal_op import unsafe_reshape
+
+        return [unsafe_reshape(a[0], (6,))]
+
+    t("inline_3", (("F6",), ("F6",)), ("F6", "F6"), inline3)
+    t("unsafe_cast_F6", (("F6",),), ("FV",), unsafe_cast_f6)
+    t("unsafe_reshape_F6", (("F6",),), ("F6",), unsafe_reshape_f6)
     t("inline_1", (("F23",),), ("F23", "F6"), inline1)
     t("inline_2", (("F6",), ("F6",)), ("F6",), inline2)
     return T
@@ -687,6 +726,16 @@ def inline_model_2(op, spox):
         a, b = spox.argument(Tensor(np.float32, (6,))), spox.argument(Tensor(np.float32, (6,)))
         _INLINE_CACHE["m2"] = spox.build({"a": a, "b": b}, {"r": op.sub(op.mul(a, b), a)})
     return _INLINE_CACHE["m2"]
+
+
+def inline_model_3(op, spox):
+    """two outputs of the same type, declared in an order that is not the sorted order of their names"""
+    from spox import Tensor
+
+    if "m3" not in _INLINE_CACHE:
+        a, b = spox.argument(Tensor(np.float32, (6,))), spox.argument(Tensor(np.float32, (6,)))
+        _INLINE_CACHE["m3"] = spox.build({"a": a, "b": b}, {"s": op.add(a, b), "d": op.sub(a, b)})
+    return _INLINE_CACHE["m3"]
 
 
 def gen_sources(rng):
